@@ -21,6 +21,8 @@ open HotXL HotXL.Syntax HotXL.Ops
 inductive Exn where
   | xl (e : Err)
   | py (msg : String)
+  | unmodelled            -- not an exception: a registered builtin outside the modelled families was
+                          -- called, so the model has no opinion on this formula (the driver says so)
   deriving Repr
 
 def errOfSingletonName : String → Option Err
@@ -47,6 +49,7 @@ def singletonMessage (e : Err) : String :=
 def Exn.toErr : Exn → Err
   | .xl e => fromMessage (singletonMessage e)
   | .py m => fromMessage m
+  | .unmodelled => .error
 
 /-! ### environment, events -/
 
@@ -132,18 +135,21 @@ def callFunction (env : Env) (name : List Char) (args : List Value) (log : Log) 
       if Builtins.isRegistered nm then
         match Builtins.model? nm with
         | some b => some (fun a => match b a with | .ok v => .ok v | .error e => .error (.xl e))
-        | none => some (fun _ => .ok (.other "unmodelled-builtin"))
+        | none => some (fun _ => .error .unmodelled)
       else none
   match fn? with
   | none => (.error (.xl .name), log)
   | some f =>
-    let v := match f args with
-      | .ok v => v
-      | .error x => .err x.toErr
-    (.ok v, log ++ [.fn name args])
+    match f args with
+    | .ok v => (.ok v, log ++ [.fn name args])
+    | .error .unmodelled => (.error .unmodelled, log)
+    | .error x => (.ok (.err x.toErr), log ++ [.fn name args])
 
 def binOfOp (op : BinOp) (l r : Value) : Except Exn Value :=
-  let lift (x : Ops.Res) : Except Exn Value := match x with | .ok v => .ok v | .error e => .error (.py (singletonMessage e))
+  let lift (x : Ops.Res) : Except Exn Value := match x with
+    | .ok (.other _) => .error .unmodelled      -- text of a float/date/list under `&`: not modelled
+    | .ok v => .ok v
+    | .error e => .error (.py (singletonMessage e))
   match op with
   | .add => lift (evalArith 64 .add l r)
   | .sub => lift (evalArith 64 .sub l r)
@@ -226,6 +232,7 @@ structure Record where
 /-- the `try/except` + `isinstance(result, XLError)` wrapper of `Parser.parse` -/
 def finish (o : Except Exn Value) : Record :=
   match o with
+  | .error .unmodelled => { result := some (.other "unmodelled-builtin"), error := none }
   | .error x => { result := none, error := some x.toErr }
   | .ok (.err e) => { result := none, error := some (fromMessage (singletonMessage e)) }
   | .ok .blank => { result := none, error := none }
